@@ -13,6 +13,7 @@ from vf.peers.fakezk import FakeKazoo
 from vf.lbharness import ChannelProvider
 
 from scales.constants import SinkProperties
+from scales.core import ScalesUriParser
 from scales.loadbalancer.heap import HeapBalancerSink
 from scales.loadbalancer.serverset import ZooKeeperServerSetProvider
 from scales.loadbalancer.zookeeper import ServerSet, Member
@@ -90,6 +91,9 @@ def strategy(tier):
       'salt': st.sampled_from(['', '', '-x', '-y', '.z']),
       'member_factory': st.sampled_from([None, None, None, 'tuple']),
       'ops': sized_list(weighted(*pairs), 0, 50 if tier == 'quick' else 140),
+      # two clients of one process built from the same zk:// URI (each through ScalesUriParser, so each owns what the
+      # parser gave it); one of them (which) is closed before step close_at, the other must keep following the tree
+      'twin_uri_client': st.sampled_from([None, None, [0, 0], [1, 0], [0, 3], [1, 3], [0, 12], [1, 12]]),
   })
 
 
@@ -139,19 +143,38 @@ def execute(plan):
     sss = [ObservedServerSet(zk, PATH, cb('join'), cb('leave'), lambda n: n.startswith('member_'), factory)]
     lb = None
     zkp = None
-    if plan['with_balancer']:
-      zkp = ZooKeeperServerSetProvider(zk, PATH, member_factory=factory)
-      zkp.ServerSet = ObservedServerSet
-      prov = HeapBalancerSink.Builder(server_set_provider=zkp)
+    twin = plan.get('twin_uri_client') if plan['with_balancer'] else None
+    zkps = [None, None]
+    lbs = [None, None]
 
-      class _R(object):
-        cfg = {}
-        sync_fail = False
-        step = 0
-      prov.next_provider = ChannelProvider(_R())
-      lb = prov.CreateSink({SinkProperties.Label: 'svc'})
-      lb.Open()
-    lbs = [lb]
+    class _R(object):
+      cfg = {}
+      sync_fail = False
+      step = 0
+
+    def balancer_on(provider):
+      provider.ServerSet = ObservedServerSet
+      b = HeapBalancerSink.Builder(server_set_provider=provider)
+      b.next_provider = ChannelProvider(_R())
+      s = b.CreateSink({SinkProperties.Label: 'svc'})
+      s.Open()
+      return b, s
+    if plan['with_balancer'] and not twin:
+      zkps[0] = zkp = ZooKeeperServerSetProvider(zk, PATH, member_factory=factory)
+      prov, lbs[0] = balancer_on(zkp)
+    elif twin:
+      # the providers come from the URI parser; the Kazoo client each of them makes for itself is the fake one
+      saved_kazoo = ZooKeeperServerSetProvider.KazooClient
+      ZooKeeperServerSetProvider.KazooClient = staticmethod(lambda **kw: zk)
+      try:
+        for n in (0, 1):
+          zkps[n] = ScalesUriParser().Parse('zk://zk1:2181,zk2:2181' + PATH)
+          b, lbs[n] = balancer_on(zkps[n])
+          if n == 0:
+            prov, zkp = b, zkps[0]
+      finally:
+        ZooKeeperServerSetProvider.KazooClient = saved_kazoo
+      flags.add('two_clients_from_one_zk_uri')
 
     def unobserved_incarnations(sset):
       """Deleted incarnations of the watched path that had member children and that this server set's data watch
@@ -209,19 +232,29 @@ def execute(plan):
           key = 'unobserved-path-incarnation'
         raise Violation(ID, key, 'consumer holds %r, tree has %r %s; last events %r; callback errors %r' % (
             sorted(held), sorted(want), where, log[-10:], zk.callback_errors[-3:]))
-      lb = lbs[0]
-      if lb is not None and lb._LoadBalancerSink__init_done.is_set():
-        got = set((ep.host, ep.port) for ep in lb._servers)
-        wantep = set((dict(e)['host'], dict(e)['port']) for e in tree_eps().values())
-        if got != wantep:
-          if zkp is not None and zkp._server_set is not None and wantep < got and unobserved_incarnations(zkp._server_set):
-            raise Violation(ID, 'unobserved-path-incarnation', 'balancer keeps %r, tree has %r %s' % (sorted(got - wantep), sorted(wantep), where))
-          raise Violation(ID, 'balancer-mismatch', 'balancer knows %r, tree has %r %s' % (sorted(got), sorted(wantep), where))
+      for n, lb in enumerate(lbs):
+        if lb is not None and lb._LoadBalancerSink__init_done.is_set():
+          zkp_ = zkps[n]
+          got = set((ep.host, ep.port) for ep in lb._servers)
+          wantep = set((dict(e)['host'], dict(e)['port']) for e in tree_eps().values())
+          if got != wantep:
+            if zkp_ is not None and zkp_._server_set is not None and wantep < got and unobserved_incarnations(zkp_._server_set):
+              raise Violation(ID, 'unobserved-path-incarnation', 'balancer keeps %r, tree has %r %s' % (sorted(got - wantep), sorted(wantep), where))
+            raise Violation(ID, 'balancer-mismatch', 'balancer %d knows %r, tree has %r %s%s' % (
+                n, sorted(got), sorted(wantep), where, '; its twin was closed' if twin and None in lbs else ''))
 
     parent_deleted_with_members = False
     check(-1, ['initial'])
+    def close_twin():
+      advance(0.03)
+      lbs[twin[0]].Close()
+      lbs[twin[0]] = None
+      settle()
+      flags.add('one_of_two_uri_clients_closed')
     for step, op in enumerate(plan['ops']):
       k = op[0]
+      if twin and step == twin[1]:
+        close_twin()
       if k == 'create':
         # two live znodes never advertise the same endpoint (the balancer keys its members by endpoint)
         if ep_of(op[1]) not in tree_eps().values():
@@ -341,10 +374,17 @@ def execute(plan):
         check(step, op)
       else:
         raise HarnessError(op)
+    if twin and twin[1] >= len(plan['ops']):
+      close_twin()
+      # the survivor still has to see a change made after its twin has gone
+      i = min([j for j in range(6) if ep_of(j) not in tree_eps().values()] or [0])
+      if not zk.z_create('%s/%s' % (PATH, NAMES[i]), data(i)):
+        zk.z_delete('%s/%s' % (PATH, NAMES[i]))
     check(len(plan['ops']), ['final'])
     sss[0].stop()
-    if lbs[0] is not None:
-      lbs[0].Close()
+    for lb in lbs:
+      if lb is not None:
+        lb.Close()
     settle()
   nt = sorted(flags) or None
   return Outcome(nontrivial=nt, classes=sorted(flags) + (['with_balancer'] if plan['with_balancer'] else []))
